@@ -196,6 +196,20 @@ Theorem C11_score_below_min_pvalue : forall m bg d p q s r,
     inject_Z (d_max d) / d_scale_f d + inject_Z (d_rows d) * d_offset d < s.
 Proof. exact score_below_min_pvalue_Q. Qed.
 
+(* Nothing of the far upper tail is lost: the p-value of any score at least d below the score of a
+   word w is at least the probability of w itself -- for every word, down to the single best one
+   (whose probability may be 2^-800).  A convolution that drops small partial densities, or a table
+   cut off below the best attainable score, violates this. *)
+Theorem C11_no_word_lost : forall m bg d offset scale w sw s p,
+  bg_nonneg bg -> Qsum bg <= 1 ->
+  build QOps m bg = Ok d -> stage_a QOps m = Ok (offset, scale) ->
+  (Z.of_nat (length m) * 1000 < i32_max)%Z ->
+  In w (all_words (length bg) (length m)) -> word_S m w = Some sw ->
+  s <= sw - (inject_Z (Z.of_nat (length m)) / 2 + 1) / scale ->
+  d_pvalue QOps d s = Ok p ->
+  word_weight bg w <= p.
+Proof. exact no_word_lost_Q. Qed.
+
 (* The specification itself: the recursive tail used in the theorems above is literally
    the probability that a word of independent background-distributed symbols scores at
    least t -- the sum over all K^M words of their weight. *)
@@ -472,6 +486,27 @@ Check C11_score_pvalue_roundtrip : forall m bg d p s q,
 Check check_C11_sound : forall m bg sf pv br rt,
   check_C11 m bg sf pv br rt = true -> Holds_C11 m bg sf pv br rt.
 
+Check C11_min_pvalue_is_best : forall m bg d,
+  bg_nonneg bg -> Qsum bg <= 1 -> build QOps m bg = Ok d ->
+  exists q, d_min_pvalue d = Ok q /\
+    q == tailD_words (d_data d) bg (d_max d) /\
+    tailD_words (d_data d) bg (d_max d + 1) == 0 /\
+    q == pmfD (d_data d) bg (d_max d) /\
+    (0 < tailD_words (d_data d) bg 0 -> 0 < q).
+
+Check C11_best_score_tail : forall m bg d s r p q,
+  bg_nonneg bg -> Qsum bg <= 1 -> build QOps m bg = Ok d ->
+  d_min_pvalue d = Ok q -> d_scale QOps d s = Ok r -> d_pvalue QOps d s = Ok p ->
+  ((d_max d < r)%Z -> p == 0) /\ ((r <= d_max d)%Z -> q <= p) /\ (r = d_max d -> (d_min d <= r)%Z -> p == q).
+
+Check C11_pvalue_monotone_binary64 : forall (d : dist F64.t) s1 s2 p1 p2,
+  f64_mono_pred d = true -> F64.le s1 s2 = true ->
+  d_pvalue F64Ops d s1 = Ok p1 -> d_pvalue F64Ops d s2 = Ok p2 ->
+  le_n F64Ops p2 p1 = true.
+
+Check C11_red_checker_eq : forall grid m bg sf pv br rt,
+  check_C11_red_fails grid m bg sf pv br rt = check_C11_fails m bg sf pv br rt.
+
 (* ====================================================================== *)
 (* Non-vacuity: the hypotheses are satisfiable and the conclusions bite     *)
 (* ====================================================================== *)
@@ -592,3 +627,13 @@ Example ex_red :
   let bg := map f32_val bg_uniform32 in
   c11_j bg = 54%Z /\ c11_red (c11_j bg) (c11_zb bg) = ([1; 1; 1; 1; 0]%Z, 52%Z).
 Proof. cbv zeta. split; vm_compute; reflexivity. Qed.
+
+(* C11_no_word_lost on the example: the word "3" (score 3, weight 1/4); at s = 3 - d the p-value is
+   exactly 1/4 *)
+Example ex_no_word_lost :
+  In [3%nat] (all_words (length ex_bg) (length ex_m)) /\ word_S ex_m [3%nat] = Some (3 + 0) /\
+  match build QOps ex_m ex_bg with
+  | Ok d => match d_pvalue QOps d (3 - (inject_Z 1 / 2 + 1) / 333) with Ok p => p == 1 # 4 | _ => False end
+  | _ => False
+  end.
+Proof. split; [vm_compute; tauto|]. split; vm_compute; reflexivity. Qed.
